@@ -10,6 +10,8 @@ except ImportError:
     class Starred: pass  # type: ignore[no-redef]
 
 from .compat import iteritems, string_types
+from .compat import PY2
+from ast import walk
 
 if False:
     import typing as t, abc
@@ -362,6 +364,27 @@ def split_lines(source):
     return lines
 
 
+def char_columns(tree, lines):
+    # type: (AST, list[str]) -> None
+    """The parser counts columns in UTF-8 bytes; cursor positions, reported
+    positions and the text search count characters"""
+    wide = {}
+    for i, line in enumerate(lines, 1):
+        raw = line.encode('utf-8', 'surrogatepass')
+        if len(raw) != len(line):
+            wide[i] = raw
+
+    if not wide:
+        return
+
+    for node in walk(tree):
+        for lattr, cattr in (('lineno', 'col_offset'), ('end_lineno', 'end_col_offset')):
+            ln = getattr(node, lattr, None)
+            col = getattr(node, cattr, None)
+            if ln in wide and col:
+                setattr(node, cattr, len(wide[ln][:col].decode('utf-8', 'ignore')))
+
+
 class Source(object):
     def __init__(self, source, filename=None, position=None):
         # type: (str, str | None, tuple[int, int] | None) -> None
@@ -386,7 +409,10 @@ class Source(object):
     @cached_property
     def tree(self):
         # type: () -> AST
-        return parse(self.source, self.filename)
+        tree = parse(self.source, self.filename)
+        if not PY2:
+            char_columns(tree, self.lines)
+        return tree
 
     @cached_property
     def lines(self):
